@@ -485,16 +485,24 @@ def Trans.backwardMat (t : Trans R) : Res (SpMat R) :=
   | [b] => ok b
   | bs => bs.reverse.foldlM (fun res b => b.mul res) (SpMat.id t.tgtDim)
 
+/-- first half of `Trans::reduce`: `if self.f_mats.len() > 1 { self.f_mats = vec![self.forward_mat()] }` -/
+def Trans.reduceF (t : Trans R) : Res (Trans R) :=
+  if t.fMats.length > 1 then do
+    let f ← t.forwardMat
+    ok { t with fMats := [f] }
+  else ok t
+
+/-- second half: `if self.b_mats.len() > 1 { self.b_mats = vec![self.backward_mat()] }` -/
+def Trans.reduceB (t : Trans R) : Res (Trans R) :=
+  if t.bMats.length > 1 then do
+    let b ← t.backwardMat
+    ok { t with bMats := [b] }
+  else ok t
+
 /-- `Trans::reduce` -/
 def Trans.reduce (t : Trans R) : Res (Trans R) := do
-  let t1 ← if t.fMats.length > 1 then do
-      let f ← t.forwardMat
-      ok { t with fMats := [f] }
-    else ok t
-  if t1.bMats.length > 1 then do
-    let b ← t1.backwardMat
-    ok { t1 with bMats := [b] }
-  else ok t1
+  let t1 ← t.reduceF
+  t1.reduceB
 
 /-- `Trans::sub(indices)` -/
 def Trans.sub (t : Trans R) (indices : List Nat) : Res (Trans R) := do
@@ -588,8 +596,10 @@ def DMat.sub (A B : DMat R) : Res (DMat R) := do
   assert (A.nrows = B.nrows && A.ncols = B.ncols)
   ok (DMat.ofFn A.nrows A.ncols (fun i j => A.get i j - B.get i j))
 
+/-- nalgebra's `gemm` checks the inner dimensions once per column of the result (in `gemv`): a product with a
+`B` without columns is never rejected -/
 def DMat.mul (A B : DMat R) : Res (DMat R) := do
-  assert (A.ncols = B.nrows)
+  assert (A.ncols = B.nrows || B.ncols = 0)
   ok (DMat.ofFn A.nrows B.ncols (fun i j => ((List.range A.ncols).map (fun k => A.get i k * B.get k j)).sum))
 
 /-- `Mat::mul_row` -/
